@@ -174,15 +174,16 @@ def expPmf (eps sens : α) (mono : Bool) (tol : α) (utils measure : List α) : 
 def expCum (eps sens : α) (mono : Bool) (tol : α) (utils measure : List α) : List α :=
   cumFrom 0 (expPmf eps sens mono tol utils measure)
 
-/-- `np.argmax(rand <= cum)` when some entry satisfies it: the first such index -/
-def firstLe (u : α) : List α → Option Nat
+/-- `np.argmax(rand < cum)` when some entry satisfies it: the first such index (strict since 252d7c4: a uniform of
+exactly 0 never selects a candidate of probability zero) -/
+def firstLt (u : α) : List α → Option Nat
   | [] => none
-  | c :: cs => if u ≤ c then some 0 else (firstLe u cs).map (· + 1)
+  | c :: cs => if u < c then some 0 else (firstLt u cs).map (· + 1)
 
-/-- `Exponential.randomise`: first index with `u ≤ cum_i`, else the last index if `isclose(u, cum_last)`, else
+/-- `Exponential.randomise`: first index with `u < cum_i`, else the last index if `isclose(u, cum_last)`, else
 RuntimeError -/
 def expSelect (rtol atol : α) (cum : List α) (u : α) : Except DErr Nat :=
-  match firstLe u cum with
+  match firstLt u cum with
   | some i => .ok i
   | none =>
     match cum.getLast? with
@@ -336,10 +337,10 @@ def catBuild (rtol atol eps : α) (ul : List (Nat × Nat × α)) : Except DErr (
 
 def catSelectFrom (unif : α) : α → List (Nat × α) → Option Nat → Option Nat
   | _, [], last => last
-  | cum, (t, p) :: rest, _ => if unif ≤ cum + p then some t else catSelectFrom unif (cum + p) rest (some t)
+  | cum, (t, p) :: rest, _ => if unif < cum + p then some t else catSelectFrom unif (cum + p) rest (some t)
 
 /-- `ExponentialCategorical.randomise(value)`: `unif = u * Z[value]`, walk the domain accumulating `_get_prob`,
-return the first target with `unif <= cum`, else the last target -/
+return the first target with `unif < cum` (strict since 252d7c4), else the last target -/
 def catRandomise (eps : α) (c : Cat α) (value : Nat) (u : α) : Except DErr Nat :=
   match c.domain.idxOf? value with
   | none => .error .valueError
